@@ -9,7 +9,7 @@ use crate::fns;
 /// Upper bound used for per-tick size estimates of replaying ('static) state.
 const T_EST: usize = 10;
 /// No edge may be estimated to carry more items per tick than this.
-const SIZE_CAP: usize = 1500;
+const SIZE_CAP: usize = 2500;
 pub const SRC_ITEMS_MAX: usize = 6;
 
 /// The operator x persistence catalogue the run has to cover (parameters are placeholders).
@@ -155,7 +155,7 @@ fn est(op: &Op, ins: &[usize]) -> usize {
         Op::JoinMultiset(p, q) | Op::JoinMultisetHalf(p, q, _) => (stat(p, i0) * stat(q, i1)).div_ceil(2),
         Op::JoinFused(..) => fns::KMOD as usize,
         Op::JoinFusedLhs(_, q, _) => stat(q, i1),
-        Op::JoinFusedRhs(p, _, _) => stat(p, i0),
+        Op::JoinFusedRhs(_, q, _) => stat(q, i0),
         Op::AntiJoin(p, ..) | Op::Difference(p, _) => stat(p, i0),
         Op::CrossJoin(p, q) => stat(p, i0).min(dom) * stat(q, i1).min(dom),
         Op::CrossJoinMultiset(p, q) => stat(p, i0) * stat(q, i1),
@@ -200,11 +200,36 @@ impl<'r> B<'r> {
             depth: 0,
         }
     }
+    /// Is the stream produced by a `handoff()` (possibly through unary unions, which the compiler
+    /// eliminates)? Two adjacent handoffs are rejected by `dfir_syntax!`.
+    fn hoff_like(&self, mut e: Edge) -> bool {
+        loop {
+            if e.0 >= self.nodes.len() {
+                return false;
+            }
+            let nd = &self.nodes[e.0];
+            match nd.op {
+                Op::Handoff => return true,
+                Op::Union if nd.ins.len() == 1 => e = nd.ins[0],
+                _ => return false,
+            }
+        }
+    }
+    /// `e -> handoff()` (with an `identity()` in between if `e` already is a handoff).
+    fn handoff(&mut self, e: Edge) -> Edge {
+        let e = if self.hoff_like(e) { (self.add_raw(Op::Identity, vec![e]), 0) } else { e };
+        (self.add_raw(Op::Handoff, vec![e]), 0)
+    }
     fn add(&mut self, op: Op, mut ins: Vec<Edge>) -> usize {
-        if op == Op::MultisetDelta {
+        match &op {
             // `multiset_delta()` on the push side does not type-check (E0282 inside the
             // macro-generated closure), so it is always put at the head of its own subgraph.
-            ins[0] = (self.add(Op::Handoff, vec![ins[0]]), 0);
+            Op::MultisetDelta => ins[0] = self.handoff(ins[0]),
+            Op::Handoff if self.hoff_like(ins[0]) => ins[0] = (self.add_raw(Op::Identity, vec![ins[0]]), 0),
+            Op::RefHandoff(_) | Op::RefSingleton(_) if ins[1].0 < self.nodes.len() && self.hoff_like(ins[1]) => {
+                ins[1] = (self.add_raw(Op::Identity, vec![ins[1]]), 0)
+            }
+            _ => {}
         }
         // Operators that may stop reading an input early (iterator-style short circuit): what an
         // un-pulled upstream stateful operator then does is not documented, so their inputs are
@@ -215,10 +240,21 @@ impl<'r> B<'r> {
             _ => &[],
         };
         for &k in short {
-            if !matches!(self.nodes[ins[k].0].op, Op::Handoff) {
-                ins[k] = (self.add(Op::Handoff, vec![ins[k]]), 0);
+            if !self.hoff_like(ins[k]) {
+                ins[k] = self.handoff(ins[k]);
             }
         }
+        let leaf_only = matches!(op, Op::ReduceNoReplay(..));
+        let i = self.add_raw(op, ins);
+        if leaf_only {
+            // open finding (push-side reduce_no_replay drops single-item ticks): observe the operator
+            // in isolation so that the finding keeps one stable signature
+            self.sink((i, 0));
+            self.cons[i][0] = 99;
+        }
+        i
+    }
+    fn add_raw(&mut self, op: Op, ins: Vec<Edge>) -> usize {
         let sizes: Vec<usize> = ins.iter().map(|&(j, p)| self.size.get(j).map_or(SRC_ITEMS_MAX, |s| s[p])).collect();
         for &(j, p) in &ins {
             if j < self.cons.len() {
@@ -310,7 +346,7 @@ impl<'r> B<'r> {
                     e = (self.add(Op::Fold(p, f), vec![e]), 0);
                 }
                 (Op::CrossSingleton(_), 1) if self.r.chance(1, 2) => {
-                    let f = *self.r.choose(&[0u8, 2, 3]);
+                    let f = *self.r.choose(&[0u8, 2]);
                     e = (self.add(Op::Reduce(P::Tick, f), vec![e]), 0);
                 }
                 _ => {}
@@ -323,7 +359,12 @@ impl<'r> B<'r> {
         if !self.would_fit(&op, &ins) {
             return None;
         }
+        // a non-lazy deferral of a replaying stream would keep `run_available` ticking forever
+        let op = if op == Op::DeferTick && !self.snapshot().quiet()[ins[0].0][ins[0].1] { Op::DeferTickLazy } else { op };
         let i = self.add(op, ins);
+        if self.cons[i].iter().any(|c| *c >= 3) {
+            return Some(i);
+        }
         match push {
             Some(true) => {
                 // keep the operator at the end of a push chain
@@ -395,18 +436,24 @@ pub struct Todo {
 
 impl Todo {
     fn new(r: &mut Rng) -> Todo {
-        let mut items = vec![];
+        // first one instance of every catalogue entry (random side for unary operators), then the
+        // other side of the unary ones
+        let mut first = vec![];
+        let mut second = vec![];
         for op in catalogue() {
-            let unary = op.n_in() == Some(1) && op.n_out() == 1 && !matches!(op, Op::Handoff);
+            let unary = op.n_in() == Some(1) && op.n_out() == 1 && !matches!(op, Op::Handoff | Op::MultisetDelta);
             if unary {
-                items.push((op.clone(), Some(false)));
-                items.push((op, Some(true)));
+                let push = r.chance(1, 2);
+                first.push((op.clone(), Some(push)));
+                second.push((op, Some(!push)));
             } else {
-                items.push((op, None));
+                first.push((op, None));
             }
         }
-        r.shuffle(&mut items);
-        Todo { items }
+        r.shuffle(&mut first);
+        r.shuffle(&mut second);
+        first.extend(second);
+        Todo { items: first }
     }
     fn take(&mut self, r: &mut Rng, allow: impl Fn(&Op) -> bool) -> (Op, Option<bool>) {
         if let Some(pos) = self.items.iter().position(|(o, _)| allow(o)) {
@@ -424,7 +471,7 @@ fn not_defer(o: &Op) -> bool {
 
 fn gen_ops(r: &mut Rng, todo: &mut Todo, id: usize) -> Program {
     let nsrc = 1 + r.below(3);
-    let n_ops = 4 + r.below(5);
+    let n_ops = 5 + r.below(5);
     let mut b = B::new(r, nsrc);
     let mut placed = 0;
     let mut tries = 0;
@@ -489,24 +536,44 @@ fn rp(r: &mut Rng) -> P {
     if r.chance(1, 2) { P::Tick } else { P::Static }
 }
 
-fn gen_deep(r: &mut Rng, todo: &mut Todo, id: usize) -> Program {
+/// Number of deep-feeder target kinds (see `deep_target`).
+const DEEP_KINDS: usize = 12;
+
+/// `c` = running number of the deep-feeder program: target kinds and feeder depths rotate with it so
+/// that every run covers all kinds and depths.
+fn gen_deep(r: &mut Rng, todo: &mut Todo, id: usize, c: usize) -> Program {
     let nsrc = 1 + r.below(2);
     let mut b = B::new(r, nsrc);
-    let depth = 1 + b.r.below(6);
+    let depth = 1 + (c % 6);
+    deep_target(&mut b, todo, (2 * c) % DEEP_KINDS, depth, true);
+    let depth2 = 1 + b.r.below(6);
+    deep_target(&mut b, todo, (2 * c + 1) % DEEP_KINDS, depth2, false);
+    // downstream: 0..2 more operators from the to-do list
+    for _ in 0..b.r.below(3) {
+        let (tpl, hint) = todo.take(b.r, |o| not_defer(o) && !matches!(o, Op::Inspect(_) | Op::ReduceNoReplay(..)));
+        let op = randomize(&tpl, b.r);
+        if b.place(op, hint).is_none() {
+            todo.items.push((tpl, hint));
+        }
+    }
+    b.finish(id, Mode::Deep, depth)
+}
+
+fn deep_target(b: &mut B, todo: &mut Todo, kind: usize, depth: usize, probes: bool) {
+    let nsrc = b.nsrc;
     // feeder for the blocking input
     let mut e: Edge = (0, 0);
     for _ in 0..depth {
-        e = hop(&mut b, e);
+        e = hop(b, e);
     }
     // the other input: same source (same-tick relation) or the other one, 0..2 hops
     let mut other: Edge = if b.r.chance(2, 3) { (0, 0) } else { (b.r.below(nsrc), 0) };
     for _ in 0..b.r.below(3) {
-        other = hop(&mut b, other);
+        other = hop(b, other);
     }
-    let probes = b.r.chance(2, 3);
-    let kind = b.r.below(14);
-    let out: Edge = match kind {
-        0 | 1 => {
+    let probes = probes || b.r.chance(1, 2);
+    let _out: Edge = match kind {
+        0 => {
             let (pp, pn, f) = (rp(b.r), rp(b.r), b.r.below(2) as u8);
             let n = b.add(Op::AntiJoin(pp, pn, f), vec![other, e]);
             if probes {
@@ -522,7 +589,7 @@ fn gen_deep(r: &mut Rng, todo: &mut Todo, id: usize) -> Program {
             }
             (n, 0)
         }
-        2 | 3 => {
+        1 => {
             let (pp, pn) = (rp(b.r), rp(b.r));
             let n = b.add(Op::Difference(pp, pn), vec![other, e]);
             if probes {
@@ -538,7 +605,7 @@ fn gen_deep(r: &mut Rng, todo: &mut Todo, id: usize) -> Program {
             }
             (n, 0)
         }
-        4 => {
+        2 => {
             let p = rp(b.r);
             let n = b.add(Op::Fold(p, 3), vec![e]);
             if probes {
@@ -548,7 +615,7 @@ fn gen_deep(r: &mut Rng, todo: &mut Todo, id: usize) -> Program {
             }
             (n, 0)
         }
-        5 => {
+        3 => {
             let n = b.add(Op::Sort, vec![e]);
             if probes {
                 let is = b.sink(e);
@@ -557,28 +624,28 @@ fn gen_deep(r: &mut Rng, todo: &mut Todo, id: usize) -> Program {
             }
             (n, 0)
         }
-        6 => {
+        4 => {
             let f = b.r.below(2) as u8;
             let (fp, ff) = (rp(b.r), *b.r.choose(&[0u8, 2, 3]));
             let prod = (b.add(Op::Fold(fp, ff), vec![e]), 0);
             (b.add(Op::RefSingleton(f), vec![other, prod]), 0)
         }
-        7 => {
+        5 => {
             let f = b.r.below(2) as u8;
             (b.add(Op::RefHandoff(f), vec![other, e]), 0)
         }
-        8 => {
+        6 => {
             let p = rp(b.r);
-            let f = *b.r.choose(&[0u8, 2, 3]);
+            let f = *b.r.choose(&[0u8, 2]);
             let single = (b.add(Op::Reduce(P::Tick, f), vec![e]), 0);
             (b.add(Op::CrossSingleton(p), vec![other, single]), 0)
         }
-        9 => {
+        7 => {
             let (pb, pp) = (rp(b.r), rp(b.r));
             (b.add(Op::JoinMultisetHalf(pb, pp, 0), vec![e, other]), 0)
         }
-        10 => (b.add(Op::DeferSignal, vec![other, e]), 0),
-        11 => (b.add(Op::Persist, vec![e]), 0),
+        8 => (b.add(Op::DeferSignal, vec![other, e]), 0),
+        9 => (b.add(Op::Persist, vec![e]), 0),
         _ => {
             // any accumulator / blocking unary from the to-do list
             let (tpl, _) = todo.take(b.r, |o| {
@@ -587,7 +654,6 @@ fn gen_deep(r: &mut Rng, todo: &mut Todo, id: usize) -> Program {
                     Op::Fold(..)
                         | Op::FoldNoReplay(..)
                         | Op::Reduce(..)
-                        | Op::ReduceNoReplay(..)
                         | Op::FoldKeyed(..)
                         | Op::ReduceKeyed(..)
                         | Op::LatticeFold(..)
@@ -602,19 +668,10 @@ fn gen_deep(r: &mut Rng, todo: &mut Todo, id: usize) -> Program {
             (b.add(op, vec![e2]), 0)
         }
     };
-    // downstream: 0..2 more operators from the to-do list, fed by the target's output
-    let _ = out;
-    for _ in 0..b.r.below(3) {
-        let (tpl, hint) = todo.take(b.r, |o| not_defer(o) && !matches!(o, Op::Inspect(_)));
-        let op = randomize(&tpl, b.r);
-        if b.place(op, hint).is_none() {
-            todo.items.push((tpl, hint));
-        }
-    }
-    b.finish(id, Mode::Deep, depth)
+
 }
 
-fn gen_defer(r: &mut Rng, todo: &mut Todo, id: usize) -> Program {
+fn gen_defer(r: &mut Rng, todo: &mut Todo, id: usize, c: usize) -> Program {
     let nsrc = 1 + r.below(2);
     let mut b = B::new(r, nsrc);
     let mut e: Edge = (0, 0);
@@ -623,7 +680,7 @@ fn gen_defer(r: &mut Rng, todo: &mut Todo, id: usize) -> Program {
         e = (b.add(Op::Map(fm), vec![e]), 0);
     }
     // optional decaying cycle: u = union(e, defer(decay(u)))
-    if b.r.chance(1, 2) {
+    if c % 2 == 0 {
         let base = b.nodes.len();
         let n_def = 1 + b.r.below(2);
         // indices: base = union, base+1 = decay, base+2.. = deferrals
@@ -641,7 +698,7 @@ fn gen_defer(r: &mut Rng, todo: &mut Todo, id: usize) -> Program {
         e = (base, 0);
     }
     // straight chain of d deferrals with probes at both ends
-    let d = 1 + b.r.below(4);
+    let d = 1 + (c / 2) % 4;
     let entry = e;
     let mut cur = e;
     for _ in 0..d {
@@ -658,7 +715,7 @@ fn gen_defer(r: &mut Rng, todo: &mut Todo, id: usize) -> Program {
     while placed < n_ops && tries < 20 {
         tries += 1;
         let (tpl, hint) = todo.take(b.r, |o| {
-            !matches!(o, Op::Inspect(_))
+            !matches!(o, Op::Inspect(_) | Op::ReduceNoReplay(..))
                 && (o.is_defer()
                     || !o.persistence().is_empty()
                     || matches!(o, Op::MultisetDelta | Op::DeferSignal | Op::Union | Op::Sort))
@@ -672,7 +729,7 @@ fn gen_defer(r: &mut Rng, todo: &mut Todo, id: usize) -> Program {
     }
     b.close(5);
     // wake-up sink: turn one sink on a quiet edge into a waker
-    if b.r.chance(1, 2) {
+    if c % 3 != 2 {
         let snap = b.snapshot();
         let q = snap.quiet();
         let cands: Vec<usize> = (0..b.nodes.len())
@@ -709,12 +766,19 @@ pub fn generate(seed: u64, n: usize) -> Vec<Program> {
     let mut r = Rng::new(seed ^ 0xD0F1_4C0D_E5EED);
     let mut todo = Todo::new(&mut r);
     let mut out = vec![];
+    let (mut n_deep, mut n_defer) = (0, 0);
     for id in 0..n {
         let mut pr = r.fork(id as u64 + 1);
         let p = match mode_of(id) {
             Mode::Ops => gen_ops(&mut pr, &mut todo, id),
-            Mode::Deep => gen_deep(&mut pr, &mut todo, id),
-            Mode::Defer => gen_defer(&mut pr, &mut todo, id),
+            Mode::Deep => {
+                n_deep += 1;
+                gen_deep(&mut pr, &mut todo, id, n_deep - 1)
+            }
+            Mode::Defer => {
+                n_defer += 1;
+                gen_defer(&mut pr, &mut todo, id, n_defer - 1)
+            }
         };
         out.push(p);
     }
